@@ -26,6 +26,9 @@ func (x g) genTy(depth int) *ty {
 	if depth <= 0 || k <= 7 {
 		return &ty{kind: "base", lit: x.pick(baseTypes)}
 	}
+	if k == 15 && x.hot {
+		k = 16
+	}
 	switch k {
 	case 16:
 		// .TaggedUnion</kind, /a : .Struct<...>, /b : .Struct<...>>
@@ -96,7 +99,17 @@ func (x g) tyText(t *ty) string {
 		return t.lit
 	case "tagged":
 		parts := []string{"/kind"}
+		if x.bad(3) {
+			parts = []string{x.pick([]string{"X", "1", "/kind, /kind", `"kind"`})}
+		}
 		for i, a := range t.args {
+			if x.bad(4) {
+				a = x.genTy(1) // a variant that need not be a struct
+			}
+			if x.bad(2) {
+				parts = append(parts, t.keys[i]) // a tag without a variant
+				continue
+			}
 			if dot {
 				parts = append(parts, t.keys[i]+" : "+x.tyText(a))
 			} else {
@@ -130,6 +143,17 @@ func (x g) tyText(t *ty) string {
 				parts[i] = "fn:opt(" + t.keys[i] + ", " + x.tyText(a) + ")"
 			default:
 				parts[i] = t.keys[i] + ", " + x.tyText(a)
+			}
+			// hot cases: malformed field lists (the values generated for the type keep the intended shape)
+			switch {
+			case x.bad(5):
+				parts[i] = t.keys[i] // a field name without a type
+			case x.bad(3):
+				parts[i] = x.tyText(a) // a type without a field name
+			case x.bad(2):
+				parts[i] = parts[i] + ", " + parts[i] // the same field twice
+			case x.bad(2):
+				parts[i] = strings.Replace(parts[i], t.keys[i], x.pick([]string{"/kind", "X", "1", `"a"`, "/x"}), 1)
 			}
 		}
 		return wrap("Struct", strings.Join(parts, ", "))
